@@ -526,7 +526,10 @@ def normalise(items, sig, in_bracket=False, _top=True):
                 it[3] = _no_pars(it[3])
             it[3] = normalise(it[3], sig)
             trig = _has_trailing_absent(it, sig)
-            if trig and _first_char(it[3]) in trig:
+            rest = list(it[3])
+            while rest and rest[0][0] in ('space', 'comment'):
+                rest = rest[1:]     # blanks and comments do not protect (see _fix_adjacency_core)
+            if trig and (_first_char(it[3]) in trig or _first_char(rest) in trig):
                 # the body must not start with what an absent optional argument looks for
                 it[3] = [['group', []]] + it[3]
         elif k == 'math':
